@@ -47,6 +47,8 @@ void harness_host_verify(void) {
     b = secp256k1_ecdsa_verify(&c2, &in.sig, in.msg, &in.pk);
     (void)a; (void)b;
     if (r) __CPROVER_assert(a == 1, "host_verify accepts only if the commitment check accepts");
+    if (r) __CPROVER_assert(b == 1, "host_verify accepts only if secp256k1_ecdsa_verify (incl. its low-S rule) accepts the same signature");
+    __CPROVER_assert(r == (a && b), "host_verify == verify_commit && ecdsa_verify on the same arguments");
     __CPROVER_assert(!r, "witness: host_verify accepts");
 }
 #endif
